@@ -1426,7 +1426,8 @@ impl ErasedNode for Node {
         if !was_necessary {
             self.became_necessary(state);
         }
-        if let Some(Kind::Expert(expert)) = self.kind() {
+        // the *parent* is the expert node whose edge callback wants the child's current value
+        if let Some(Kind::Expert(expert)) = p.kind() {
             expert.run_edge_callback(child_index)
         }
     }
